@@ -145,3 +145,20 @@ def pack(items, nbins):
         b[0] += it[-1]
         b[1].append(it[:-1])
     return [b[1] for b in bins if b[1]]
+
+
+def make_batch(op, dim, r, n, odim=None, momentum=None, core=True, mp=False):
+    """n draws that share their scalar arguments (so that plain-number scalars can be
+    broadcast against an array of vectors) but have independent vector operands."""
+    first = make_draw(op, dim, r, core=core, mp=mp, odim=odim, momentum=momentum)
+    out = [first]
+    guard = 0
+    while len(out) < n and guard < 50 * n:
+        guard += 1
+        d = make_draw(op, dim, r, core=core, mp=mp, odim=first.odim, momentum=first.momentum)
+        args = []
+        for (k0, a0), (k1, a1) in zip(first.args, d.args):
+            args.append((k1, a1) if k1 == "vec" else (k0, a0))
+        d.args = args
+        out.append(d)
+    return out
